@@ -130,6 +130,12 @@ func projectValue(v reflect.Value) node {
 			under = reflect.ValueOf(v.String())
 		case reflect.Slice:
 			under = v.Convert(reflect.SliceOf(t.Elem()))
+		case reflect.Float64:
+			under = reflect.ValueOf(v.Float())
+		case reflect.Int64:
+			under = reflect.ValueOf(v.Int())
+		case reflect.Bool:
+			under = reflect.ValueOf(v.Bool())
 		case reflect.Array:
 			// an (unnamed) byte array type: its bytes
 			b := make([]byte, v.Len())
